@@ -694,7 +694,11 @@ func C05(p *ir.Program, r *report.R) {
 	nMap, nGo, nSel, nSrc := 0, 0, 0, 0
 	seenSite := map[*c05MapSite]bool{}
 	for _, f := range fns {
-		fname := ir.FuncName(f)
+		// a transparent helper's loops and goroutines belong to its owner (the reviewed tables name functions)
+		fname := ir.FuncName(ir.EnclosingTop(f))
+		if ir.IsTransparentHelper(f) && ir.EnclosingTop(f) != f {
+			continue // visited through its owner (ir.Instrs includes the helper's instructions)
+		}
 		ir.Instrs(f, func(in ssa.Instruction) {
 			switch x := in.(type) {
 			case *ssa.Range:
